@@ -63,7 +63,7 @@ def owned_copies(ctx, R, rule='C16.O', only=None):
         # C16.L signature: 'static
         out = ctx.fx.fns[p]['output']
         R.inst(rule.replace('.O', '.L'), 'to_owned/%s/returns-static' % adt_path, "'static" in out, expected="...<'static>", found=out, entry=p, nontrivial=False)
-    R.floor('owned-copy field slots', n, 9 if not only else 5)
+    R.floor('owned-copy field slots', n, 9 if not only else (5 if 'v2::model::Header' in only else 2))
     return n
 
 
